@@ -137,7 +137,9 @@ def _dir(fn, top_name):
     _need(_is_name(a[0], src), fn.name + ": listdir argument")
     _need(len(loop.body) == 1 and isinstance(loop.body[0], ast.If) and not loop.body[0].orelse, fn.name + ": loop body")
     fi = loop.body[0]
-    _need(ast.unparse(fi.test) == "not filter or filter(%s)" % fnv, fn.name + ": filter guard " + ast.unparse(fi.test))
+    guards = {"not filter or filter(%s)" % fnv: "GTruthy", "filter is None or filter(%s)" % fnv: "GIsNone"}
+    _need(ast.unparse(fi.test) in guards, fn.name + ": filter guard " + ast.unparse(fi.test))
+    guard = guards[ast.unparse(fi.test)]
     _need(len(fi.body) == 3 and all(isinstance(s, ast.Assign) and len(s.targets) == 1 and isinstance(s.targets[0], ast.Name)
                                     for s in fi.body[:2]) and isinstance(fi.body[2], ast.Expr), fn.name + ": guarded block")
     joins = {}
@@ -152,8 +154,8 @@ def _dir(fn, top_name):
     kw = {k.arg: ast.unparse(k.value) for k in call.keywords}
     _need(set(kw) == {"filter", "ignore_invalid", "chunk_size"} and kw["filter"] == "filter"
           and kw["chunk_size"] == "chunk_size" and kw["ignore_invalid"] in ("True", "False"), fn.name + ": recursive call keywords")
-    return ("{| dk_mk := %s; dk_list := %s; dk_filter_on_name := true; dk_src_join := %s; dk_dst_join := %s; "
-            "dk_ignore_invalid := %s |}" % (s_mk, s_list, joins[src][0], joins[dst][0], coq_bool(kw["ignore_invalid"] == "True")))
+    return ("{| dk_mk := %s; dk_list := %s; dk_guard := %s; dk_src_join := %s; dk_dst_join := %s; "
+            "dk_ignore_invalid := %s |}" % (s_mk, s_list, guard, joins[src][0], joins[dst][0], coq_bool(kw["ignore_invalid"] == "True")))
 
 
 def translate(repo):
